@@ -76,12 +76,16 @@ def run_tiling(case):
         for k, q in enumerate(crops):
             ptab = _tables(gbt, d, crops[:k], [])
             roi = np.s_[q[0]:q[1], q[2]:q[3]]
-            if k % 2 == 0:
+            if (k + q[1] + q[3]) % 2 == 0:
                 nxt = gbt.crop[roi]
             else:
-                # the same crop through clip(): selection = the corner tiles of the block
-                nxt, new_idx = gbt.clip([(q[0], q[2]), (q[1] - 1, q[3] - 1)])
-                if [tuple(i) for i in new_idx] != [(0, 0), (q[1] - 1 - q[0], q[3] - 1 - q[2])]:
+                # the same crop through clip(): any selection of tiles whose bounding block (Tiling!BlockOf) is q -
+                # main-diagonal corners, anti-diagonal corners, or an L-shaped / unordered pick, in either order
+                y0, y1, x0, x1 = q[0], q[1] - 1, q[2], q[3] - 1
+                sel = [[(y0, x0), (y1, x1)], [(y0, x1), (y1, x0)], [(y1, x0), ((y0 + y1) // 2, (x0 + x1 + 1) // 2), (y0, x1)],
+                       [(y1, x1), (y0, x0)]][(sum(q) + len(crops) + d.get("base", [0])[0]) % 4]
+                nxt, new_idx = gbt.clip(sel)
+                if [tuple(i) for i in new_idx] != [(y - y0, x - x0) for y, x in sel]:
                     return {"kind": "tiling", "d": d, "crops": crops, "outcome": "clip_indices_not_rebased"}
             parent = [{"q": q, "preg": ptab["regions"], "pgb": ptab["gb"]}]
             gbt = nxt
